@@ -127,6 +127,7 @@ class World:
         self.fired = {}              # kind -> count (faults that actually fired)
         self.calls = []              # (engine, healthy?) per engine call
         self.last_x = {}             # engine -> last healthy x (for 'stale')
+        self.ecos_bb_capped = False  # the last ECOS_BB run was ended by the proxy's wall-clock cap
 
     def count(self, kind):
         self.fired[kind] = self.fired.get(kind, 0) + 1
@@ -212,7 +213,7 @@ def _scipy_proxy(which):
     return proxy
 
 
-ECOS_MI_CAP = 4000
+ECOS_MI_CAP = 20000
 
 
 def _ecos_proxy(*a, **kw):
@@ -231,6 +232,11 @@ def _ecos_proxy(*a, **kw):
         w.count('raise')
         raise _mk_exc(f.get('exc'))
     sol = real(*a, **kw)
+    if 'mi_max_iters' in kw and int(sol['info'].get('mi_iter', 0)) >= kw['mi_max_iters'] - 1:
+        # the wall-clock cap of the proxy ended the branch-and-bound, not the engine: whatever was returned is no optimum
+        w.ecos_bb_capped = True
+    else:
+        w.ecos_bb_capped = False
     if f and f['kind'] == 'status':
         w.count('status')
         sol['info']['exitFlag'] = int(f['status'])
